@@ -23,9 +23,14 @@ class Undefined(Exception):
     """the naive reference does not define this case (offset landing outside, mask of the wrong length, ...)"""
 
 
+NAN = float("nan")
+
+
 def columns(names):
     n = len(names)
-    return {"name": list(names), "s": [1.0 * i for i in range(n)], "u": list(UVALS[:n])}
+    # w: a column with missing values (nan) at every third position: a row whose value is nan lies in NO range
+    return {"name": list(names), "s": [1.0 * i for i in range(n)], "u": list(UVALS[:n]),
+            "w": [NAN if i % 3 == 1 else UVALS[i] for i in range(n)]}
 
 
 def all_index_columns(maxlen):
@@ -147,6 +152,9 @@ def single_selectors(n):
         for lo in (None, 0.0, 1.0, 1.5, 2.5, 10.0):
             for hi in (None, 0.0, 1.0, 2.0, 2.5, 3.0, -1.0):
                 sels.append(slice(lo, hi, colname))
+    for lo in (None, 0.0, 2.0):
+        for hi in (None, 2.5, 10.0):
+            sels.append(slice(lo, hi, "w"))
     sels += [["a"], ["b", "a"], ["a", "a::1"], ["c::-1", "a"], ["zz"]]
     return sels
 
@@ -155,7 +163,8 @@ CORE = [None, 0, 1, -1, [1, 0], [0, 0], slice(1, None), slice(None, 2), slice(No
         "a", "A", "a|b", "[ab]", ".*", "zz", "a::0", "a::1", "a::-1", ".*::0", ".*::-1", "[ab]::1", "b>>1", "a<<1", ".*::0>>1",
         slice("a", "b"), slice("b", None), slice(None, "a"), slice("a::1", "c"), slice("c", "a"),
         slice(1.0, 3.0, "s"), slice(1.0, None, "s"), slice(None, 2.0, "s"), slice(None, None, "s"),
-        slice(1.0, 3.0, "u"), slice(2.0, None, "u"), slice(None, 1.5, "u"), ["b", "a"], [], slice(0, 0)]
+        slice(1.0, 3.0, "u"), slice(2.0, None, "u"), slice(None, 1.5, "u"), ["b", "a"], [], slice(0, 0),
+        slice(0.0, None, "w"), slice(None, 10.0, "w")]
 
 
 # ------------------------------------------------------------ real side
@@ -164,7 +173,7 @@ def mk_table(names):
     from xdeps import Table
     cols = columns(names)
     return Table({"name": np.array(cols["name"], dtype=object), "s": np.array(cols["s"], dtype=float),
-                  "u": np.array(cols["u"], dtype=float)})
+                  "u": np.array(cols["u"], dtype=float), "w": np.array(cols["w"], dtype=float)})
 
 
 def real_rows(t, sel):
@@ -326,6 +335,78 @@ def job_triples(chunk):
     return out
 
 
+SEQ_SELS = ["a", "a|b", ".*", "[^a]", ".*::0", ".*::1", "b::-1", "a>>1", slice("a", "b"), slice("b", None), slice(1.0, None, "u"),
+            slice(None, 2.0, "u"), [True, False] * 3, 0, slice(None, None, -1)]
+SEQ_MUTS = [("append", "a"), ("append", "b"), ("cell", 0, "b"), ("cell", -1, "a"), ("rot",), ("attr",), ("ucell", 0, 2.0), ("ucell", -1, 0.5),
+            ("newcol",)]
+
+
+def seq_mutate(t, cols, mut):
+    import numpy as np
+    n = len(cols["name"])
+    k = mut[0]
+    if k == "append":
+        row = {"name": mut[1], "s": float(n), "u": 1.25, "w": 1.25}
+        t._append_row(dict(row))
+        for c in cols:
+            cols[c].append(row[c])
+    elif k == "cell":
+        t["name", mut[1]] = mut[2]
+        cols["name"][mut[1]] = mut[2]
+    elif k == "rot":
+        t["name"] = np.roll(t["name"], 1)
+        cols["name"][:] = cols["name"][-1:] + cols["name"][:-1]
+    elif k == "attr":
+        t.name = np.array(cols["name"][::-1], dtype=object)
+        cols["name"][:] = cols["name"][::-1]
+    elif k == "ucell":
+        t["u", mut[1]] = mut[2]
+        cols["u"][mut[1]] = mut[2]
+    elif k == "newcol":
+        t["z"] = np.arange(n) * 2.0
+
+
+def job_sequences(chunk):
+    """ONE table object: a selection, a mutation made through the table API, then selections again (the same selector and
+    every other one): each must describe the table as it is NOW"""
+    out = {"evaluations": 0, "undefined": 0, "nonempty": 0, "issues": [], "tables": 0, "pairs": 0, "singles": 0, "sequences": 0}
+    h = hashlib.sha256()
+    for names in chunk:
+        n = len(names)
+        for s1 in SEQ_SELS:
+            if isinstance(s1, list):
+                s1 = s1[:n]
+            for mut in SEQ_MUTS:
+                if n == 0 and mut[0] in ("cell", "ucell", "rot", "attr"):
+                    continue
+                for s2 in SEQ_SELS:
+                    cols = columns(names)
+                    t = mk_table(names)
+                    try:
+                        t.rows[s1]
+                        t.rows.indices[s1]
+                    except Exception:  # noqa  (single selections are judged by the main enumeration)
+                        pass
+                    seq_mutate(t, cols, mut)
+                    n2 = len(cols["name"])
+                    if isinstance(s2, list):
+                        s2 = s2[:n2]
+                        if len(s2) != n2:
+                            continue
+                    out["sequences"] += 1
+                    before = len(out["issues"])
+                    r = check_single(t, cols, tuple(cols["name"]), s2, _CFG, out)
+                    for it in out["issues"][before:]:
+                        it["program"] = [f"t = Table(name={list(names)!r}, ...)", f"t.rows[{s1!r}]; t.rows.indices[{s1!r}]", f"mutation {mut!r}",
+                                         f"selector = {s2!r}"]
+                        it["case"] = {"names": list(names), "sel": repr(s2), "seq": [repr(s1), repr(mut)]}
+                        it["what"] = "after an earlier selection and a mutation through the table API: " + it["what"]
+                    h.update(repr((names, sel_key(s1), mut, sel_key(s2), r)).encode())
+    out["digest_sum"] = int(h.hexdigest(), 16)
+    out["distinct"] = set()
+    return out
+
+
 _CFG = {}
 
 
@@ -384,12 +465,15 @@ def run_job(job):
     r2 = E.pmap(job_chunk2, E.chunked(tabs2, 40), job.get("nproc", 1))
     tabs3 = [nm for nm in all_index_columns(3 if tier == "quick" else 4)]
     r3 = E.pmap(job_triples, E.chunked(tabs3, 2), job.get("nproc", 1))
-    for extra in (r2, r3):
+    tabs4 = [nm for nm in all_index_columns(3 if tier == "quick" else 4)]
+    r4 = E.pmap(job_sequences, E.chunked(tabs4, 2), job.get("nproc", 1))
+    for extra in (r2, r3, r4):
         for k, v in extra.items():
             if isinstance(v, (int, float)) and k != "wall_s":
                 r[k] = r.get(k, 0) + v
         r["issues"] = r["issues"] + extra["issues"]
     r["triples"] = r3.get("triples", 0)
+    r["sequences"] = r4.get("sequences", 0)
     r["case_variant_tables"] = len(tabs2)
     dsum = r.pop("digest_sum", 0)
     st = {k: v for k, v in r.items() if isinstance(v, (int, float))}
@@ -412,7 +496,7 @@ def finish(plan_, results):
     cov = {"evaluations": int(tot),
            "distinct_nontrivial": int(st.get("nonempty", 0)),
            "per_seed": {"tables": st.get("tables"), "single_selector_cases": st.get("singles"), "selector_pairs": st.get("pairs"),
-                        "selector_triples": st.get("triples"), "tables_with_case_variant_or_regex_overlapping_names": st.get("case_variant_tables"),
+                        "selector_triples": st.get("triples"), "select_mutate_select_sequences": st.get("sequences"), "tables_with_case_variant_or_regex_overlapping_names": st.get("case_variant_tables"),
                         "reference_undefined_skipped": st.get("undefined"), "distinct_result_lists": st.get("distinct_results")},
            "hash_seeds": sorted(digs), "result_digests_equal_across_seeds": len(set(digs.values())) <= 1,
            "exhaustive": True,
@@ -436,6 +520,10 @@ def replay(issue):
     out = {"evaluations": 0, "undefined": 0, "nonempty": 0, "issues": []}
     cols = columns(names)
     t = mk_table(names)
+    if case.get("seq"):
+        r = job_sequences([names])
+        bad = [i for i in r["issues"] if i["case"] == case]
+        return {"still_fails": bool(bad), "what": bad[0]["what"] if bad else "ok"}
     if isinstance(sel, tuple) and len(sel) == 3:
         # re-run the triple job on this one table and look for the same selector triple
         r = job_triples([names])
